@@ -11,6 +11,7 @@ from . import facts as F
 from .engine import Analysis, CLS, PUBLIC_API
 from .loader import norm
 from .report import Rule
+from .rules_common import rules_of
 from .rules_common import (call_arg, digest_checked_before_delete, MUT, primary, base_class, site_text, site_func, site_loc, resource_hits, func_nodes,
                            ends_in_raise)
 from .rules_paths import Q, ALL_MODES, all_events, probe_atoms
@@ -192,6 +193,15 @@ def check_C01(A: Analysis, tier):
                     re1.fail(ev.func, ev.node, f"{ev.prim} on the temp file being written: the writer must append every element; moving the position leaves "
                              "holes or drops a tail", A.p.loc(ev.func, ev.node))
     rules.append(re1)
+
+    from .rules_paths import check_C15
+    c15g = [r for r in rules_of(A, "C15") if r.rid == "C15.g"][0]
+    rf1 = Rule("C01", "C01.f", "what retrieve_object opens for a cid is the file at objects/<shard(cid)> whenever that exists (shared with C15.g): a "
+               "lower-priority candidate of the overloaded look-up never shadows the stored object", floor=c15g.floor)
+    rf1.instances, rf1.nontrivial, rf1.obligations = list(c15g.instances), set(c15g.nontrivial), c15g.obligations
+    for f in c15g.findings:
+        rf1.fail(f.func, f.construct, f.message, f.loc, f.detail)
+    rules.append(rf1)
 
     rd1 = Rule("C01", "C01.d", "Stream.__iter__ rewinds the wrapped object to offset 0, yields every chunk it reads until an empty "
                "read, yields nothing else, and restores the caller's offset afterwards; _cast_to_bytes is the identity on bytes "
@@ -655,6 +665,20 @@ def check_C02(A: Analysis, tier):
                         rg2.fail(rf_, "defaults", "the returned list does not start from the default algorithm list", A.p.loc(rf_, rf_.node))
     rules.append(rg2)
 
+    _src = [r for r in rules_of(A, "C01") if r.rid == "C01.e"][0]
+    _sh = Rule("C02", "C02.h", 'the digests reported are those of the bytes stored: the temp writer writes every element it hashes (shared with C01.e) ...', floor=_src.floor)
+    _sh.instances, _sh.nontrivial, _sh.obligations = list(_src.instances), set(_src.nontrivial), _src.obligations
+    for f in _src.findings:
+        if True:
+            _sh.fail(f.func, f.construct, f.message, f.loc, f.detail)
+    rules.append(_sh)
+    _src = [r for r in rules_of(A, "C09") if r.rid == "C09.e"][0]
+    _sh = Rule("C02", "C02.i", '... through a buffered writer, so that a short write cannot go unnoticed (shared with C09.e)', floor=_src.floor)
+    _sh.instances, _sh.nontrivial, _sh.obligations = list(_src.instances), set(_src.nontrivial), _src.obligations
+    for f in _src.findings:
+        if True:
+            _sh.fail(f.func, f.construct, f.message, f.loc, f.detail)
+    rules.append(_sh)
     rs2 = Rule("C02", "C02.f", "nothing a call computes is stored in the shared store object (shared with C07.g): results cannot depend on "
                "other calls through instance state", floor=10)
     shared_state_rule(A, rs2)
@@ -849,6 +873,12 @@ def check_C06(A: Analysis, tier):
                 if lab not in o.raises or o.normal is not None or o.ret is not None:
                     rd.fail(fn, f"except {lab}", f"the {lab} verdict leaves as {sorted(map(str, o.raises)) or 'normal completion'}", A.p.loc(fn, h))
         labs = {c["state"].handling[-1] if c["state"].handling else None for c in it.calls if c["callee"] == Q("_delete_object_only")}
+        for lb in sorted(labs, key=str):
+            rd.inst(f"delete_if_invalid_object [{m}] deletes while handling {lb}")
+        other = sorted(str(lb) for lb in labs if lb not in (None, "NonMatchingObjSize", "NonMatchingChecksum"))
+        if other:
+            rd.fail(Q("delete_if_invalid_object"), "self._delete_object_only(...)", f"_delete_object_only also runs while {', '.join(other)} is propagating (an I/O error "
+                    "during validation, an unsupported algorithm, ...): an object whose size and checksum are correct is deleted")
         rd.ob()
         if None in labs:
             rd.fail(Q("delete_if_invalid_object"), "self._delete_object_only(...)", "_delete_object_only is reachable on the valid-verdict path: a valid object would be deleted")
@@ -1342,6 +1372,11 @@ def check_C14(A: Analysis, tier):
     if acc_test is None:
         re_.fail(wp, "store_algorithm in accepted_store_algorithms", "the store algorithm is no longer checked against the accepted list", A.p.loc(wp, wp.node))
     rules.append(re_)
+    from .rules_locks import shared_state_rule
+    rg14 = Rule("C14", "C14.g", "the configuration an instance works with is its own: no method assigns a class attribute or an attribute of the shared "
+                "object outside construction (shared with C07.g) - a value written to the class by opening another store changes this store's algorithm", floor=10)
+    shared_state_rule(A, rg14)
+    rules.append(rg14)
     return rules
 
 
@@ -1700,7 +1735,8 @@ def check_C20(A: Analysis, tier):
     rc = Rule("C20", "C20.c", "each documented verb flag dispatches to its API method and demands its required options", floor=7)
     for flag, (meth, required) in VERBS.items():
         rc.ob()
-        hit = [c for c in api if any(f == ("truthy", V(("opt", flag))) and pol is True for f, pol in c["state"].facts)]
+        hit_all = [c for c in api if any(f == ("truthy", V(("opt", flag))) and pol is True for f, pol in c["state"].facts)]
+        hit = list({id(c["node"]): c for c in hit_all}.values())   # one call site may be interpreted on several correlated continuations
         rc.inst(f"-{flag[7:]} -> {[c['callee'].split('.')[-1] for c in hit]}")
         if len(hit) != 1 or hit[0]["callee"] != Q(meth):
             rc.fail(main, f"getattr(args, '{flag}')", f"verb flag {flag} dispatches to {[c['callee'] for c in hit] or 'nothing'}, documented: {meth}",
